@@ -26,8 +26,15 @@ func Rate() api.Builder {
 				workers *workers.PoolManager,
 				options options.RunOptions,
 			) {
-				doWork := NewWorker(options.Concurrency)
-				doWork(ctx, output, workers, options)
+				pool := workers.NewContinuousPool(options.Concurrency)
+				pool.Start(ctx)
+
+				// return as soon as triggering is over: how long to wait for the iterations still
+				// in flight is up to the run (completion timeout)
+				select {
+				case <-ctx.Done():
+				case <-workers.WaitForCompletion():
+				}
 			}
 
 			return &api.Trigger{
